@@ -160,7 +160,7 @@ class C12(Prop):
                 a0 = arrays[0]
                 d = rng.randrange(len(a0["axes"]))
                 # labels along the concatenation axis need not be related
-                yield {"op": "concatenate", "arrays": arrays, "axis": ["name", a0["axes"][d]["name"]] if rng.random() < 0.5 else ["pos", d],
+                yield {"op": "concatenate", "arrays": arrays, "axis": ["name", a0["axes"][d]["name"]] if rng.random() < 0.5 else ["pos", d if rng.random() < 0.6 else d - len(a0["axes"])],
                        "align": doalign, "sort": doalign and rng.random() < 0.4, "_rel": rel}
 
     def impl(self, c):
